@@ -191,6 +191,8 @@ FAMILIES = {'chain': fam_chain, 'swap': fam_swap, 'mem': fam_mem, 'counter': fam
 
 def build(family, seed, domains=1):
     rng = random.Random(seed)
+    if family not in FAMILIES:
+        from props import c10_designs        # registers the 'hier' family
     with quiet():
         b = FAMILIES[family](rng, domains)
     b.family, b.seed, b.domains = family, seed, domains
